@@ -296,6 +296,11 @@ def _analyse(traj, sites, res=None):
     except ValueError:
         out['jumps'] = []
     out['tmatrix'] = np.asarray(tr.matrix())
+    # occupancy bookkeeping: per site, and aggregated per site label (label-keyed, so independent of the order of the sites)
+    out['occupancy'] = np.array([float(s_.species.num_atoms) for s_ in tr.occupancy()])
+    for nm_, d_ in (('occupancy_by_site_type', tr.occupancy_by_site_type()), ('atom_locations', tr.atom_locations())):
+        out[nm_ + ' labels'] = sorted(d_)
+        out[nm_] = np.array([float(d_[k_]) for k_ in sorted(d_)])
     # per-label radii (labels are interleaved in the site list and get permuted with the sites)
     tr_lab = traj.transitions_between_sites(sites, 'Li', site_radius={'A': 1.0, 'B': 0.9, 'C': 1.1})
     out['states(per-label radii)'] = np.asarray(tr_lab.states)
@@ -379,7 +384,7 @@ def replay_metamorphic(inputs):
         same(rel(base[key]), o.get(key), f'atom permutation: {key} are not the relabelled rows')
     same(base['states(per-label radii)'][:, [int(np.where(np.array(li) == perm[li][k])[0][0]) for k in range(len(li))]], o['states(per-label radii)'],
          'atom permutation: states (per-label radii) are not the permuted columns')
-    compare(o, 'atom permutation', keys=['matrix', 'tmatrix', 'jump_diffusivity', 'rdf', 'tracer'] + [k for k in base if k.startswith('n_')])
+    compare(o, 'atom permutation', keys=['matrix', 'tmatrix', 'jump_diffusivity', 'rdf', 'tracer', 'occupancy'] + [k for k in base if k.startswith('n_') or k.startswith('occupancy_by') or k.startswith('atom_loc')])
     # (d) permutation of the sites
     sg = rng.permutation(len(sp))  # sites'[j] = sites[sg[j]]
     tau = np.argsort(sg)
@@ -395,7 +400,12 @@ def replay_metamorphic(inputs):
         same(sorted((r[0], rs(r[1]), rs(r[2]), r[3], r[4]) for r in base[key]), o.get(key), f'site permutation: {key} are not the relabelled jumps')
     if 'matrix' in base and 'matrix' in o:
         same(base['matrix'][np.ix_(sg, sg)], o['matrix'], 'site permutation: jump matrix is not the permuted matrix')
-    compare(o, 'site permutation', keys=['jump_diffusivity', 'rdf', 'tracer'] + [k for k in base if k.startswith('n_')])
+    same(base['occupancy'][sg], o['occupancy'], 'site permutation: site occupancies are not the permuted occupancies')
+    # transition matrix: outside the row / column of the last site of either ordering (into which Transitions.matrix folds the no-site events -
+    # known finding C05-nosite-fold)
+    keep_ = [j_ for j_ in range(len(sg)) if j_ != len(sg) - 1 and sg[j_] != len(sg) - 1]
+    same(base['tmatrix'][np.ix_(sg[keep_], sg[keep_])], o['tmatrix'][np.ix_(keep_, keep_)], 'site permutation: transition matrix is not the permuted matrix')
+    compare(o, 'site permutation', keys=['jump_diffusivity', 'rdf', 'tracer'] + [k for k in base if k.startswith('n_') or k.startswith('occupancy_by') or k.startswith('atom_loc')])
     # (e) grids: a shift by whole voxels rolls the density volume and the free energy; optimal path costs are unchanged
     vol = traj.filter('Li').to_volume(resolution=float(inputs.get('resolution', 0.9)))
     dims = np.array(vol.data.shape)
